@@ -83,6 +83,8 @@ def gen_preserve_tree(rng: random.Random) -> Dict[str, Any]:
             vn = rng.choice([f"someVar{k}x{v}", f"CONSTANT_{k}_{v}", f"lower_var_{k}_{v}"])
             parts.append(f"{vn} = {v + 10}\n")
             d["vars"].append(vn)
+        if d["vars"] and rng.random() < 0.6:
+            parts.append(f"def read_vars_{k}():\n    return [" + ", ".join(d["vars"]) + "]\n\n\nprint(read_vars_" + str(k) + "())\n")
         # a module variable that only comes into being through `global` inside a function
         d["global_vars"] = {}
         if rng.random() < 0.35:
@@ -133,7 +135,12 @@ def gen_preserve_tree(rng: random.Random) -> Dict[str, Any]:
                 elif form == "modattr":
                     if not any(l == f"import {imp}" for l in lines):
                         lines.append(f"import {imp}")
-                    refs.append(f"{imp}.{nm}")
+                    if nm in lib["vars"] and rng.random() < 0.5:
+                        # the client only ever *writes* the library's variable (configuration style): a reference
+                        # by module attribute all the same
+                        setup.append(rng.choice([f"{imp}.{nm} = 3", f"{imp}.{nm} += 2"]))
+                    else:
+                        refs.append(f"{imp}.{nm}")
                 else:
                     if not used_module:
                         lines.append(f"import {imp} as {alias}")
@@ -448,7 +455,7 @@ def gen_imports_tree(rng: random.Random) -> Dict[str, Any]:
     # ---- layouts drawn per run (round 4): the ways a module can spell its export list, underscore
     # names, export lists that come out empty, relative re-exports inside a package, a package
     # directory next to a stale plain module of the same name, clients inside a package
-    all_form = rng.choice(["aug_list", "aug_tuple", "append", "extend_list", "extend_tuple", "tuple", "concat", "annotated", "list"])
+    all_form = rng.choice(["aug_list", "aug_tuple", "append", "extend_list", "extend_tuple", "tuple", "concat", "annotated", "list", "computed"])
     all_lines = {
         "aug_list": "__all__ = ['aug_a']\n__all__ += ['aug_b']\n",
         "aug_tuple": "__all__ = ['aug_a']\n__all__ += ('aug_b',)\n",
@@ -459,8 +466,12 @@ def gen_imports_tree(rng: random.Random) -> Dict[str, Any]:
         "concat": "__all__ = ['aug_a'] + ['aug_b']\n",
         "annotated": "__all__: list = ['aug_a', 'aug_b']\n",
         "list": "__all__ = ['aug_a', 'aug_b']\n",
+        "computed": "",
     }[all_form]
     files[f"{base}_allaug.py"] = all_lines + "\n\ndef aug_a():\n    return 'aug_a'\n\n\ndef aug_b():\n    return 'aug_b'\n\n\ndef aug_hidden():\n    return 'aug_hidden'\n"
+    if all_form == "computed":
+        # an export list that is computed at import time (every public name): nothing static to read
+        files[f"{base}_allaug.py"] += "\n\n__all__ = [n for n in dir() if not n.startswith('_')]\n"
     # a module that defines aug_hidden itself and is star-imported *before* allaug: python binds this one
     files[f"{base}_augdecoy.py"] = "def aug_hidden():\n    return 'decoy'\n\n\ndef decoy_only():\n    return 'decoy only'\n"
     # underscore names: exported only when __all__ lists them
@@ -543,9 +554,13 @@ def gen_imports_tree(rng: random.Random) -> Dict[str, Any]:
         elif scen < 0.24:
             lines += [f"from {base}_plain import *", f"from {base}_emptyall import *"]
             refs += ["plain_func"]
-        elif scen < 0.36:
+        elif scen < 0.36 and all_form != "computed":
             lines += [f"from {base}_augdecoy import *", f"from {base}_allaug import *"]
             refs += ["aug_hidden", "aug_a", "aug_b"]
+        elif scen < 0.46:
+            # star imports in the alternative branches of a module level try / except: only one of them runs
+            lines += [f"try:\n    from {base}_starhub import *\nexcept ImportError:\n    from {base}_plain import *"]
+            refs += ["plain_func", "PlainClass"]
         if rng.random() < 0.4:
             lines.append(rng.choice(["import os.path", "import json", "from collections import OrderedDict", "import unused_never_there_hopefully_not" if False else "import re"]))
             if lines[-1] == "import os.path":
@@ -759,6 +774,21 @@ def _known_import_pattern(before: str, after: str, problem: str) -> Optional[str
     an import anywhere in the file as binding the name everywhere)."""
     import re
 
+    # K8: a star import in the fallback branch of a module level try / except is moved to module level
+    # (move_imports_to_toplevel) when the same module is also imported by name at module level, and the two are
+    # then merged: the fallback always runs, aliases of the explicit import are lost
+    try:
+        tb8 = ast.parse(before)
+    except SyntaxError:
+        tb8 = None
+    if tb8 is not None:
+        fallback_stars = {
+            n.module for t in tb8.body if isinstance(t, ast.Try) for n in [*t.body, *(m for h in t.handlers for m in h.body)]
+            if isinstance(n, ast.ImportFrom) and any(a.name == "*" for a in n.names)
+        }
+        explicit = {n.module for n in ast.walk(tb8) if isinstance(n, ast.ImportFrom) and not any(a.name == "*" for a in n.names)}
+        if fallback_stars & explicit:
+            return "e3:imports:fallback-star-import-moved-out-of-except-branch-and-merged"
     if "returns other objects" in problem or "bound to another object" in problem:
         # K6: the same name imported at module level from two different modules: sorting the imports
         # changes which binding comes last
